@@ -12,7 +12,7 @@ import Sif.Spec.C19
   (the predicate name carries the input shape so that bin/check reports the first failure of
    each shape separately)
   <fees> = n (denom amt)*n ; <vals> = n (id tokens)*n ; <msgs> = n tree*n ;
-  tree = X n tree*n | L url o | L url cv r | L url ev r|- | L url dg val amt | L url rd src dst amt
+  tree = X n tree*n | L url o | L url cv r val value | L url ev r|- | L url dg val amt | L url rd src dst amt
 -/
 namespace Sif.Drv
 open Sif Sif.Ante Sif.Spec.C19
@@ -24,7 +24,7 @@ partial def parseMsg : List String → Option (Msg × List String)
       let (ms, rest) ← parseMsgs n rest
       some (.exec ms, rest)
   | "L" :: url :: "o" :: rest => some (.leaf ⟨url, .other⟩, rest)
-  | "L" :: url :: "cv" :: r :: rest => do some (.leaf ⟨url, .createVal (← parseInt r)⟩, rest)
+  | "L" :: url :: "cv" :: r :: v :: a :: rest => do some (.leaf ⟨url, .createVal (← parseInt r) v (← parseInt a)⟩, rest)
   | "L" :: url :: "ev" :: "-" :: rest => some (.leaf ⟨url, .editVal none⟩, rest)
   | "L" :: url :: "ev" :: r :: rest => do some (.leaf ⟨url, .editVal (some (← parseInt r))⟩, rest)
   | "L" :: url :: "dg" :: v :: a :: rest => do some (.leaf ⟨url, .delegate v (← parseInt a)⟩, rest)
